@@ -336,7 +336,13 @@ fn render(m: &Model, rng: &mut Rng, dir: &str, split: bool) -> Rendered {
                     lines.extend(it.lines.clone());
                 }
             }
-            files.push((path.clone(), decorate(&lines, rng, 0).join("\n")));
+            let mut body = decorate(&lines, rng, 0).join("\n");
+            if rng.chance(1, 10) {
+                // a long included file: its directives come after 70..300 KiB of comments and blank lines
+                let pad: String = (0..rng.urange(1800, 7500)).map(|k| if k % 9 == 0 { "\n".to_string() } else { format!("# padding line {:>6} of a long included file\n", k) }).collect();
+                body = format!("{}{}", pad, body);
+            }
+            files.push((path.clone(), body));
             root_lines.push(format!("include {}", q(&path)));
             i += n;
         } else {
@@ -560,6 +566,10 @@ fn run_case(r: &mut Report, seed: u64, case: u64, work: &str) {
         if rd.files.len() > 1 {
             r.count("configs_with_includes", 1);
             r.max("max_included_files", rd.files.len() as u64 - 1);
+            r.max("max_included_file_bytes", rd.files[1..].iter().map(|f| f.1.len() as u64).max().unwrap_or(0));
+            if rd.files[1..].iter().any(|f| f.1.len() > 65536) {
+                r.count("configs_with_an_included_file_over_64KiB", 1);
+            }
         }
         let ex = |why: &str| J::obj(vec![("root_file", J::s(&rd.files[0].1)), ("included_files", J::u(rd.files.len() as u64 - 1)), ("model", J::s(format!("{:?}", m).chars().take(600).collect::<String>())), ("why", J::s(why))]);
         match load(&rd.files[0].1, &rd.files[0].0) {
